@@ -8,7 +8,7 @@ ASSUMPTIONS = ['tokio Notify::notify_one stores a permit when no waiter is regis
 
 def obligations(ctx, cfg):
     q = cfg['tier'] == 'quick'
-    no, nb, k = (2, 3, 2) if q else (3, 4, 3)
+    no, nb, k = (2, 3, 2) if q else (4, 5, 3)
     return [StepPost(ctx, 1, nb, k, 'notify', 'C06.a-post'),
             StepPull(ctx, 1, nb, 0, 'notify', 'C06.a-pull'),
             StepModify(ctx, no, 2, k, 'notify', 'C06.a-modify'),
